@@ -7,6 +7,7 @@ import (
 	"go/types"
 	"golang.org/x/tools/go/ssa"
 	"os"
+	"os/exec"
 	"path/filepath"
 	"sort"
 	"strconv"
@@ -345,7 +346,7 @@ func runCheck(repo, prop, tier string, opts SolveOpts) int {
 	addBounded(eng, prop, tier, &ev, &exit, vdir)
 	b, _ := json.MarshalIndent(ev, "", " ")
 	os.WriteFile(evPath, b, 0o644)
-	fmt.Printf("property %s tier %s: %d/%d obligations discharged over %d contract items, %d violation(s), %.1fs\n", prop, tier, discharged, total, len(items), violations, time.Since(t0).Seconds())
+	fmt.Printf("property %s tier %s: %d/%d obligations discharged over %d contract items, %d violation(s), %.1fs\n", prop, tier, discharged, total, len(items), ev.Violations, time.Since(t0).Seconds())
 	return exit
 }
 
@@ -451,8 +452,66 @@ func (eng *Engine) fieldImplsScan(fieldKey string) ([]*ssa.Function, error) {
 	return out, nil
 }
 
-// addBounded is the hook for bounded stand-ins (never counted as discharged obligations).
-func addBounded(eng *Engine, prop, tier string, ev *Evidence, exit *int, vdir string) {}
+// addBounded runs the bounded stand-ins of a property (labelled bounded in the evidence, never counted as discharged
+// obligations). C04: the Reed-Solomon decoder, which is not under contract, is exercised on the real code against an
+// independent table-free arithmetic: encode -> zero syndromes -> corrupt up to floor(r/2) symbols -> decode.
+func addBounded(eng *Engine, prop, tier string, ev *Evidence, exit *int, vdir string) {
+	if prop != "C04" {
+		return
+	}
+	src := filepath.Join(vdir, "bounded", "c04_rs_test.go.txt")
+	pkgDir := filepath.Join(eng.RepoDir, "common", "reedsolomon")
+	scratch, _ := os.MkdirTemp("/var/tmp", "govc-bounded-")
+	defer os.RemoveAll(scratch)
+	ov := map[string]map[string]string{"Replace": {filepath.Join(pkgDir, "zz_bounded_test.go"): src}}
+	ovb, _ := json.Marshal(ov)
+	ovFile := filepath.Join(scratch, "overlay.json")
+	os.WriteFile(ovFile, ovb, 0o644)
+	t0 := time.Now()
+	cmd := exec.Command("go", "test", "-overlay", ovFile, "-vet=off", "-count=1", "-timeout", "600s", "-run", "^TestZZBoundedRS$", "-v", ".")
+	cmd.Dir = pkgDir
+	cmd.Env = append(os.Environ(), "GOFLAGS=-mod=mod", "GOPROXY=off", "GOSUMDB=off", "GOTOOLCHAIN=local", "ZZ_TIER="+tier)
+	out, _ := cmd.CombinedOutput()
+	evals, fails := -1, -1
+	var failLines []string
+	for _, l := range strings.Split(string(out), "\n") {
+		if strings.HasPrefix(l, "ZZBOUNDED ") {
+			fmt.Sscanf(l, "ZZBOUNDED evaluations=%d failures=%d", &evals, &fails)
+		}
+		if strings.HasPrefix(l, "ZZFAIL ") {
+			failLines = append(failLines, strings.TrimPrefix(l, "ZZFAIL "))
+		}
+	}
+	b := map[string]interface{}{
+		"label":       "bounded (not a proof; not counted in obligations/discharged)",
+		"function":    "ReedSolomonDecoder.Decode (with ReedSolomonEncoder.Encode) on the real code, all six fields",
+		"bound":       "shapes (k,r) in {(1,2),(2,2),(3,4),(5,4),(4,6)} (thorough: also (9,6),(10,8),(3,10)); GF(16) data exhaustive for k<=2, otherwise deterministic pseudo-random data; every single-error position with several magnitudes (all 15 for GF(16)), double errors over all position pairs for short words, floor(r/2) random errors; uncorrupted words; growing parity counts on one encoder",
+		"oracle":      "carry-less multiplication modulo the primitive polynomial (no tables): all r syndromes of the encoded word are zero; decode(corrupted) == encoded word",
+		"evaluations": evals,
+		"failures":    fails,
+		"wall_s":      time.Since(t0).Seconds(),
+	}
+	ev.Coverage["bounded_stand_in"] = b
+	if evals <= 0 || fails != 0 {
+		os.MkdirAll(filepath.Join(vdir, "replays", prop), 0o755)
+		rp := filepath.Join(vdir, "replays", prop, "bounded-reedsolomon.json")
+		o := string(out)
+		if len(o) > 6000 {
+			o = o[:6000]
+		}
+		rb, _ := json.MarshalIndent(map[string]interface{}{"obligation": "bounded:ReedSolomon encode/decode", "failing_inputs": failLines, "go_test_output": o,
+			"rerun": "cd /repo/common/reedsolomon && go test -overlay <overlay mapping zz_bounded_test.go to /verif/bounded/c04_rs_test.go.txt> -run TestZZBoundedRS -v ."}, "", " ")
+		os.WriteFile(rp, rb, 0o644)
+		suffix := ""
+		if len(failLines) == 0 {
+			suffix = " no-failing-input-found"
+		}
+		fmt.Printf("  bounded stand-in failed: %s\n", strings.Join(failLines, " | "))
+		fmt.Printf("VIOLATION property=%s replay=%s obligation=bounded:reedsolomon%s\n", prop, rp, suffix)
+		ev.Violations++
+		*exit = 1
+	}
+}
 
 // runFrameProperty decides C18 by the whole-module frame (effect) checker instead of SMT obligations.
 func runFrameProperty(eng *Engine, prop, tier string, seed int, t0 time.Time, vdir, evPath string) int {
